@@ -11,18 +11,18 @@ import JediVerif.Spec.Basic
 
 namespace Jedi
 
-structure Q2 (F : Type) where
+@[ext] structure Q2 (F : Type) where
   c0 : F
   c1 : F
 deriving DecidableEq, Repr
 
-structure Q6 (F : Type) where
+@[ext] structure Q6 (F : Type) where
   c0 : Q2 F
   c1 : Q2 F
   c2 : Q2 F
 deriving DecidableEq, Repr
 
-structure Q12 (F : Type) where
+@[ext] structure Q12 (F : Type) where
   c0 : Q6 F
   c1 : Q6 F
 deriving DecidableEq, Repr
